@@ -387,6 +387,10 @@ void thrift_skip(thrift_decoder_t* dec, thrift_type_t type) {
             break;
 
         case THRIFT_TYPE_BYTE:
+            if (!has_bytes(dec, 1)) {
+                set_error(dec, CARQUET_ERROR_THRIFT_TRUNCATED, "Truncated byte");
+                break;
+            }
             carquet_buffer_reader_skip(&dec->reader, 1);
             break;
 
@@ -397,6 +401,10 @@ void thrift_skip(thrift_decoder_t* dec, thrift_type_t type) {
             break;
 
         case THRIFT_TYPE_DOUBLE:
+            if (!has_bytes(dec, 8)) {
+                set_error(dec, CARQUET_ERROR_THRIFT_TRUNCATED, "Truncated double");
+                break;
+            }
             carquet_buffer_reader_skip(&dec->reader, 8);
             break;
 
@@ -454,6 +462,10 @@ void thrift_skip(thrift_decoder_t* dec, thrift_type_t type) {
         }
 
         case THRIFT_TYPE_UUID:
+            if (!has_bytes(dec, 16)) {
+                set_error(dec, CARQUET_ERROR_THRIFT_TRUNCATED, "Truncated UUID");
+                break;
+            }
             carquet_buffer_reader_skip(&dec->reader, 16);
             break;
 
